@@ -176,6 +176,16 @@ def warm_with(t, v, T):
         import pendulum
         if datetime.timedelta(0) <= v < datetime.timedelta(days=10000):
             w = pendulum.duration(days=v.days, seconds=v.seconds, microseconds=v.microseconds)
+    if t in ("datetime", "time"):
+        # also touch the same wall clock at the offset 24 h away (an unequal value whose offset has the
+        # same `.seconds`): results must not depend on it
+        off = v.utcoffset()
+        for delta in (datetime.timedelta(hours=24), datetime.timedelta(hours=-24)):
+            if abs(off + delta) < datetime.timedelta(hours=24):
+                other = v.replace(tzinfo=datetime.timezone(off + delta))
+                tl.call(tl.unmarshal, T, other.isoformat())
+                tl.call(tl.marshal, other, t=T)
+                w = w if w is not None else other
     if w is None:
         return False
     tl.call(tl.marshal, w, t=T)
